@@ -600,7 +600,13 @@ def gen_hostile_cases(rng, thorough):
     nm = 100 if thorough else 10
     out = []
 
+    primary = ("b64", "qp", "uri", "json", "csv", "utf8", "utf16", "utf32", "hex", "ber")
+
     def add(dec, cls, b):
+        # quick tier: the variants of a decoder (string / port / header forms) get a seeded quarter of the bulk
+        # classes per run, so that successive seeds rotate through them; targeted and valid inputs always run
+        if not thorough and dec not in primary and cls in ("byte", "pair", "mutated", "random") and rng.random() >= 0.25:
+            return
         out.append(Case("h", "%s:%s" % (dec, cls), [Sym(dec), bytes(b[:4096])], group="hostile"))
 
     singles = [bytes([b]) for b in range(256)]
@@ -837,9 +843,13 @@ def run():
     import shutil
     shutil.rmtree(chk.replay_dir, ignore_errors=True)          # replay files of earlier runs of this property
     with vlib.Scratch("c19") as sc:
-        build = vlib.build_repo(sc.sub("build"))
-        # ---- the specification checks itself; the same run prints the small enumeration
-        r = vlib.run_tlc("CodecMC.tla", "CodecMC.cfg", sc.path, workers=4, timeout=900, heap="4g")
+        # ---- the specification checks itself (while the implementation is being built); the same run prints
+        # the small enumeration
+        from concurrent.futures import ThreadPoolExecutor
+        with ThreadPoolExecutor(max_workers=1) as ex:
+            fut = ex.submit(lambda: vlib.run_tlc("CodecMC.tla", "CodecMC.cfg", sc.path, workers=4, timeout=900, heap="4g"))
+            build = vlib.build_repo(sc.sub("build"))
+            r = fut.result()
         vlib.require_tlc_ok(r, "CodecMC")
         if r.violated:
             raise Broken("Codec.tla violates its own laws (%s):\n%s" % (r.violated, r.out[-2000:]))
@@ -898,7 +908,7 @@ def run():
         shards, cur, cursize = [], [], 0
         for label, (lines, _) in ran:
             sz = sum(len(x) for x in lines)
-            if cur and cursize + sz > 6_000_000:
+            if cur and cursize + sz > 3_000_000:
                 shards.append(cur)
                 cur, cursize = [], 0
             cur += lines
@@ -920,7 +930,14 @@ def run():
         # flakiness guard: everything rejected is run and judged a second time
         notrepro = set()
         if rejected:
-            again = [byid[i] for i in sorted(rejected) if i in byid][:600]
+            per_key = {}
+            again = []
+            for i in sorted(rejected):
+                k = tuple(sorted(key_of(byid[i], cl) for cl in rejected[i]))
+                per_key[k] = per_key.get(k, 0) + 1
+                if per_key[k] <= 6 or byid[i].group == "hostile" and per_key[k] <= 30:
+                    again.append(byid[i])
+            again = again[:600]
             lines2, _ = run_chunk(build, sc, "again", again, henv)
             _, rej2, _ = validate(sc, "again", lines2)
             rej2 = dict(rej2)
